@@ -62,4 +62,6 @@ let () =
       let fs = match final_share grp (z_of_hex i) d with Some (a, b) -> hex_of_z a ^ "," ^ hex_of_z b | None -> "none" in
       ((if ql then "qual:" ^ fs else "disqualified"), out)
     | _ -> failwith "arity");
+  (* Flip step 3: the complaints in the order they were raised -> the list handed to Reconstruct *)
+  register "flip_complaints" (function [raw; out] -> (tok_of_zlist (complaint_set (zlist_of_tok raw)), out) | _ -> failwith "arity");
   main ()
